@@ -57,7 +57,7 @@ def generate(rng, i, tier):
         modes = {}
         if rng.random() < 0.35:
             modes["unmatched-mode"] = "keep"
-        m = gen.gen_member(rng, hdr, len(rows), ident, modes=modes)
+        m = gen.gen_member(rng, hdr, len(rows), ident, modes=modes, zoo_p=0.3, zoo_pool=gen.ZOO_SAFE)
         members.append(m)
     nruns = 1 if rng.random() < 0.6 else 2
     runs = []
